@@ -28,7 +28,10 @@ RULE = (
     "appends to the same node file (header re-creation path) with >= 2 actors; distinct by hash of the case. One case in "
     "five is a whole generated submission instead (real run-jobs and try-submit-jobs processes, operator rounds near the "
     "end of batches): at completion every job that ran has exactly one consolidated row, no row is left in a node file, "
-    "and every consolidated row's job is recorded as done (it was reported to a round)"
+    "and every consolidated row's job is recorded as done (it was reported to a round). A third of the direct cases "
+    "continue as resubmit-jobs does: clear_results_for_resubmission rewrites the consolidated file without a generated "
+    "subset of the rows, then a second generation of runners / collectors / submitter-level rows works on the rewritten "
+    "file; it must hold exactly the kept rows (unchanged) plus the new ones, each new row reported to exactly one round"
 )
 ASSUMPTIONS = C.WORLD_ASSUMPTIONS + [
     "file_yields on; a row / file content reaches the disk atomically at close (rows are < 1 page, one buffered write)",
@@ -50,6 +53,14 @@ def strategy(tier):
         "collectors": st.lists(st.integers(1, 3), min_size=1, max_size=3),
         "submitter_rows": st.lists(ROW, max_size=2),
         "schedule": gen.schedules(240),
+        # a third of the cases continue the way resubmit-jobs does: the consolidated file is rewritten without the rows of
+        # the jobs to rerun (clear_results_for_resubmission), then a second generation of runners and collectors works on it
+        "epoch2": st.one_of(st.none(), st.none(), st.fixed_dictionaries({
+            "remove": st.lists(st.integers(0, 40), max_size=6),
+            "runners": st.lists(st.lists(ROW, min_size=1, max_size=3), min_size=1, max_size=3),
+            "collectors": st.lists(st.integers(1, 2), min_size=1, max_size=2),
+            "submitter_rows": st.lists(ROW, max_size=1),
+        })),
     })
     # whole submissions: real runners (run-jobs) and real submitter rounds (try-submit-jobs), interleaved at lock- and
     # file-operation granularity, with operator rounds near the end of batches
@@ -129,6 +140,81 @@ def key(res):
     return (res.name, res.return_code, res.status, float(res.exec_time_s), float(res.completion_time), res.hpc_job_id)
 
 
+def _norm(k):
+    # a rewritten consolidated file stores a missing HPC id as an empty field
+    return k[:5] + (None if k[5] in (None, "", "None") else k[5],)
+
+
+def run_epoch2(case, e2, w, out, appended, events, runner, collector, submitter, returned, v, res):
+    """resubmit-jobs' use of the aggregator: rewrite the consolidated file without the rows of the jobs to rerun, then a
+    second generation of runners / collectors / submitter-level rows; the file must hold the kept rows and the new ones."""
+    from jade.jobs.results_aggregator import ResultsAggregator
+
+    res["classes"].append("epoch2_after_rewrite")
+    names = sorted({k[0] for k in appended})
+    remove = {names[i % len(names)] for i in e2["remove"]} if names else set()
+    kept = [k for k in appended if k[0] not in remove]
+    if remove and kept:
+        res["classes"].append("epoch2_some_rows_kept_some_removed")
+    box = {}
+
+    def clear():
+        ResultsAggregator.load(out).clear_results_for_resubmission(set(remove))
+        box["after_clear"] = [key(x) for x in ResultsAggregator.list_results(out)]
+        raise SystemExit(0)
+
+    vt = w.spawn("resubmit", "login1", w.base_env, clear, "submitter")
+    w.run()
+    if vt.exc or "after_clear" not in box:
+        v.append(C.viol("C08:rewrite-failed", f"{vt.exc}"))
+        return
+    if sorted(map(_norm, box["after_clear"]), key=repr) != sorted(map(_norm, kept), key=repr):
+        v.append(C.viol("C08:rewrite-rows-differ", f"after removing {sorted(remove)} the consolidated file holds "
+                        f"{sorted(k[0] for k in box['after_clear'])}, expected {sorted(k[0] for k in kept)} unchanged"))
+        return
+    n0 = len(appended)
+    r0 = len(returned)
+    nb = len(case["runners"])
+    for b, rows in enumerate(e2["runners"]):
+        w.spawn(f"e2run{b}", f"n{nb + b}", w.base_env, runner(nb + b, rows, tag="e2"), "runner")
+    for c, n in enumerate(e2["collectors"]):
+        w.spawn(f"e2col{c}", f"c{c}", w.base_env, collector(n), "collector")
+    if e2["submitter_rows"]:
+        w.spawn("e2sub", "login1", w.base_env, submitter(e2["submitter_rows"], tag="e2"), "submitter")
+    ok = w.run()
+    if not ok or w.live_threads():
+        res["inconclusive"] = "step-budget" if not ok else "live-threads"
+        return
+    excs = [(t.name, t.exc) for t in w.threads if t.exc]
+    if excs:
+        v.append(C.viol(f"C08:process-raised|{excs[0][1].get('type')}", f"epoch 2: {excs}"))
+
+    def final():
+        box["rows"] = [key(x) for x in ResultsAggregator.load(out).process_results()]
+        box["all"] = [key(x) for x in ResultsAggregator.list_results(out)]
+        raise SystemExit(0)
+
+    vt = w.spawn("e2final", "login1", w.base_env, final, "collector")
+    w.run()
+    if vt.exc or "all" not in box:
+        v.append(C.viol("C08:final-collection-failed", f"epoch 2: {vt.exc}"))
+        return
+    new = appended[n0:]
+    want = sorted(map(_norm, kept + new), key=repr)
+    got = sorted(map(_norm, box["all"]), key=repr)
+    if got != want:
+        lost = [x for x in want if x not in got]
+        extra = [x for x in got if got.count(x) > want.count(x)]
+        v.append(C.viol("C08:consolidated-rows-differ-after-rewrite" + ("|lost" if lost else "|duplicated-or-changed"),
+                        f"kept {len(kept)} rows + {len(new)} new; consolidated file has {len(got)}; lost={lost[:4]} extra/changed={extra[:4]}"))
+    rep = returned[r0:] + box["rows"]
+    if sorted(rep, key=repr) != sorted(new, key=repr):
+        lost = [x for x in new if x not in rep]
+        dup = sorted({x for x in rep if rep.count(x) > 1}, key=repr)
+        v.append(C.viol("C08:reported-results-differ-after-rewrite" + ("|never-reported" if lost else "|reported-twice"),
+                        f"rows never reported to a round: {lost[:4]}; reported more than once: {dup[:4]}"))
+
+
 def run_case(case):
     from jade.jobs.results_aggregator import ResultsAggregator
 
@@ -176,10 +262,10 @@ def run_case(case):
 
         w._note_lock = note_lock
 
-        def runner(b, rows):
+        def runner(b, rows, tag=""):
             def fn():
                 for i, r in enumerate(rows):
-                    result = make_result(f"b{b}r{i}", r)
+                    result = make_result(f"{tag}b{b}r{i}", r)
                     ResultsAggregator.append(out, result, batch_id=b)
                     appended.append(key(result))
                     events.append(("append", b))
@@ -195,11 +281,11 @@ def run_case(case):
                 raise SystemExit(0)
             return fn
 
-        def submitter(rows):
+        def submitter(rows, tag=""):
             def fn():
                 agg = ResultsAggregator.load(out)
                 for i, r in enumerate(rows):
-                    result = make_result(f"s{i}", dict(r, status="canceled", rc=r["rc"] or 1, hpc=None))
+                    result = make_result(f"{tag}s{i}", dict(r, status="canceled", rc=r["rc"] or 1, hpc=None))
                     agg.append_result(result)
                     appended.append(key(result))
                     returned.append(key(result))  # a submitter-level result is known to its round by construction
@@ -249,6 +335,9 @@ def run_case(case):
             v.append(C.viol("C08:consolidated-file-unparsable", f"{parse_errors[:3]}"))
         if any(os.path.exists(os.path.join(out, "results", f)) for f in os.listdir(os.path.join(out, "results")) if f.endswith(".csv")):
             v.append(C.viol("C08:node-file-left-after-final-collection", f"{os.listdir(os.path.join(out, 'results'))}"))
+        e2 = case.get("epoch2")
+        if e2 and not v:
+            run_epoch2(case, e2, w, out, appended, events, runner, collector, submitter, returned, v, res)
         # non-trivial: collect strictly between two appends of the same batch
         nt = False
         for b in range(len(case["runners"])):
